@@ -11,4 +11,7 @@ if [ -d ovl/profiles ] && { [ ! -x .cache/bin/maprange ] || [ engine/cmd/maprang
   mkdir -p .cache/bin
   GOFLAGS=-mod=mod GOPROXY=off GOSUMDB=off GOTOOLCHAIN=local go build -o .cache/bin/maprange ./engine/cmd/maprange
 fi
+if [ -d ovl/profiles ] && { [ ! -x .cache/bin/gostmt ] || [ engine/cmd/gostmt/main.go -nt .cache/bin/gostmt ]; }; then
+  GOFLAGS=-mod=mod GOPROXY=off GOSUMDB=off GOTOOLCHAIN=local go build -o .cache/bin/gostmt ./engine/cmd/gostmt
+fi
 exec python3 ovl/gen.py
